@@ -556,6 +556,8 @@ impl SlabRouter {
         // Save snapshot first
         self.save_to_file(snapshot_path)
             .map_err(|e| SlabRouterError::WalError(format!("Failed to save snapshot: {e}")))?;
+        #[cfg(neumann_verif)]
+        crate::verif_hooks::crash_point("ckpt.snapshot_written");
 
         let checkpoint_id = self.checkpoint_counter.fetch_add(1, Ordering::SeqCst);
 
@@ -568,10 +570,14 @@ impl SlabRouter {
             };
             wal.append(&entry)
                 .map_err(|e| SlabRouterError::WalError(format!("Failed to log checkpoint: {e}")))?;
+            #[cfg(neumann_verif)]
+            crate::verif_hooks::crash_point("ckpt.marker_logged");
 
             // Truncate WAL after successful checkpoint
             wal.truncate()
                 .map_err(|e| SlabRouterError::WalError(format!("Failed to truncate WAL: {e}")))?;
+            #[cfg(neumann_verif)]
+            crate::verif_hooks::crash_point("ckpt.truncated");
         }
 
         Ok(checkpoint_id)
